@@ -368,8 +368,10 @@ macro_rules! single_type_arith {
     };
 }
 
-single_type_arith!(rem, Int, |a, b| if b == I::zero() {
+single_type_arith!(rem, Int, |a: I, b: I| if b == I::zero() {
     Val::Error(ExError::new("% by zero"))
+} else if a == I::min_value() && b == -I::one() {
+    Val::Error(exerr!("overflow in {:?}%{:?}", a, b))
 } else {
     Val::Int(a % b)
 });
